@@ -18,9 +18,10 @@ type Rec struct {
 	Pattern   []bool // when set, an exhausted Tape is refilled from Pattern, Repeat times
 	Repeat    int
 	Quiet     bool     // do not append tape reads to Log (millions of iterations)
-	Probe     bool     // sample the call depth at tape reads number 10, 100, 1000, ... and the last one
-	Reads     int      // number of tape reads so far
-	Samples   [][2]int // (read number, depth in frames)
+	Probe     bool     // sample the call depth at recorder events number 10, 100, 1000, ... of every advance
+	Adv       int      // number of the current advance (ResetProbe)
+	Reads     int      // number of recorder events so far in this advance
+	Samples   [][3]int // (advance, event number, depth in frames)
 	LastDepth [2]int
 	pcs       []uintptr
 }
@@ -37,7 +38,7 @@ func (r *Rec) spend() {
 	if r.Probe {
 		r.Reads++
 		if ProbeAll || isPow10(r.Reads) {
-			r.Samples = append(r.Samples, [2]int{r.Reads, r.depth()})
+			r.Samples = append(r.Samples, [3]int{r.Adv, r.Reads, r.depth()})
 		}
 	}
 }
@@ -107,6 +108,9 @@ func (r *Rec) depth() int {
 	}
 	return runtime.Callers(0, r.pcs)
 }
+
+// ResetProbe starts the event count of a new advance.
+func (r *Rec) ResetProbe() { r.Adv++; r.Reads = 0 }
 
 func isPow10(n int) bool {
 	for n >= 10 && n%10 == 0 {
